@@ -14,6 +14,7 @@ import (
 
 // sources returns the generated packages to analyse for this run.
 func sources(c *core.Ctx) []*model.GenPkg {
+	helperCtx = c
 	s := source.GetS2(c)
 	if s.Err != nil {
 		c.Fail("GEN.build", "working-tree generator", s.Err.Error(), "", "S2")
